@@ -105,6 +105,11 @@ struct Engines {
     bytes: HashMap<String, Option<regex::bytes::Regex>>,
     fancy: HashMap<String, Option<fancy_regex::Regex>>,
     ci: HashMap<String, Option<regex::Regex>>,
+    /// answers of fancy_regex's is_match as the engine gave them: 0 = Ok(false), 1 = Ok(true), 2 = Err(RuntimeError(..))
+    fancy_answers: HashMap<(String, String), u8>,
+    /// wall time spent in evaluations that ended with an engine error (they are the expensive ones)
+    fancy_err_time: std::time::Duration,
+    fancy_err_evals: u64,
 }
 impl Engines {
     fn bytes(&mut self, p: &str) -> &Option<regex::bytes::Regex> {
@@ -119,8 +124,28 @@ impl Engines {
     fn bytes_match(&mut self, p: &str, t: &[u8]) -> bool {
         self.bytes(p).as_ref().map(|r| r.is_match(t)).unwrap_or(false)
     }
+    /// the engine's real answer: Ok(false) / Ok(true) / Err at match time (a pattern that does not compile: 0)
+    fn fancy_answer(&mut self, p: &str, t: &str) -> u8 {
+        let key = (p.to_string(), t.to_string());
+        if let Some(a) = self.fancy_answers.get(&key) {
+            return *a;
+        }
+        let t0 = std::time::Instant::now();
+        let a = match self.fancy(p).as_ref().map(|r| r.is_match(t)) {
+            Some(Ok(true)) => 1,
+            Some(Ok(false)) | None => 0,
+            Some(Err(_)) => 2,
+        };
+        if a == 2 {
+            self.fancy_err_time += t0.elapsed();
+            self.fancy_err_evals += 1;
+        }
+        self.fancy_answers.insert(key, a);
+        a
+    }
+    /// the payload pattern criterion of the property text: it holds when the engine says "match"
     fn fancy_match(&mut self, p: &str, t: &str) -> bool {
-        self.fancy(p).as_ref().map(|r| r.is_match(t).unwrap_or(false)).unwrap_or(false)
+        self.fancy_answer(p, t) == 1
     }
     fn ci_match(&mut self, s: &str, t: &str) -> bool {
         self.ci(s).as_ref().map(|r| r.is_match(t)).unwrap_or(false)
@@ -648,12 +673,40 @@ fn bits(v: &[bool]) -> O {
 struct Decisions {
     msgs: Vec<bool>,
     sweep: Option<Vec<bool>>,
+    /// calls of `matches` that panicked: index of the message (1000 + type byte for the sweep) and the panic message;
+    /// their entry in `msgs` / `sweep` is false
+    panics: Vec<(usize, String)>,
+}
+/// one call of Filter::matches; a panic is caught here so that the other messages are still decided
+fn matches_caught(f: &Filter, m: &DltMessage) -> Result<bool, String> {
+    std::panic::catch_unwind(std::panic::AssertUnwindSafe(|| f.matches(m))).map_err(|e| {
+        if let Some(s) = e.downcast_ref::<String>() {
+            s.clone()
+        } else if let Some(s) = e.downcast_ref::<&str>() {
+            s.to_string()
+        } else {
+            "panic".to_string()
+        }
+    })
 }
 fn decide(f: &Filter, real: &[DltMessage], real_sweep: &Option<Vec<DltMessage>>) -> Decisions {
-    Decisions { msgs: real.iter().map(|m| f.matches(m)).collect(), sweep: real_sweep.as_ref().map(|s| s.iter().map(|m| f.matches(m)).collect()) }
+    let mut panics = vec![];
+    let mut one = |i: usize, m: &DltMessage| match matches_caught(f, m) {
+        Ok(b) => b,
+        Err(e) => {
+            panics.push((i, e));
+            false
+        }
+    };
+    let msgs = real.iter().enumerate().map(|(i, m)| one(i, m)).collect();
+    let sweep = real_sweep.as_ref().map(|s| s.iter().enumerate().map(|(i, m)| one(1000 + i, m)).collect());
+    Decisions { msgs, sweep, panics }
 }
 fn o_decisions(d: &Decisions) -> (O, O) {
-    (O::T(d.msgs.iter().map(|b| O::b(*b)).collect()), d.sweep.as_ref().map(|s| bits(s)).unwrap_or(O::T(vec![])))
+    (
+        O::T(d.msgs.iter().enumerate().map(|(i, b)| if d.panics.iter().any(|(k, _)| *k == i) { O::L(2) } else { O::b(*b) }).collect()),
+        d.sweep.as_ref().map(|s| bits(s)).unwrap_or(O::T(vec![])),
+    )
 }
 
 struct Loaded {
@@ -940,20 +993,25 @@ fn record_multi(sink: &mut Sink, ctx: &mut Ctx, fe: FeIn, a: Option<AFilter>, al
     }
     let mut rt: Vec<String> = vec![];
     let mut ci_assumption_broken: Option<String> = None;
+    let mut engine_errors = 0u64;
     for p in &id_pats {
         for i in &ids {
-            rt.push(format!("(0, {}, {}, {})", cbytes(p.as_bytes()), cbytes(i), cbool(ctx.eng.bytes_match(p, i))));
+            rt.push(format!("(0, {}, {}, {})", cbytes(p.as_bytes()), cbytes(i), ctx.eng.bytes_match(p, i) as u8));
         }
     }
     for p in &fancy_pats {
         for t in &txts {
-            rt.push(format!("(1, {}, {}, {})", cbytes(p.as_bytes()), cbytes(t.as_bytes()), cbool(ctx.eng.fancy_match(p, t))));
+            let ans = ctx.eng.fancy_answer(p, t);
+            if ans == 2 {
+                engine_errors += 1;
+            }
+            rt.push(format!("(1, {}, {}, {})", cbytes(p.as_bytes()), cbytes(t.as_bytes()), ans));
         }
     }
     for s in &ci_lits {
         for t in &txts {
             let ans = ctx.eng.ci_match(s, t);
-            rt.push(format!("(2, {}, {}, {})", cbytes(s.as_bytes()), cbytes(t.as_bytes()), cbool(ans)));
+            rt.push(format!("(2, {}, {}, {})", cbytes(s.as_bytes()), cbytes(t.as_bytes()), ans as u8));
             if s.is_ascii() && t.is_ascii() && ans != ascii_ci_contains(t, s) {
                 ci_assumption_broken = Some(format!("literal {:?} text {:?}: engine {}", s, t, ans));
             }
@@ -968,6 +1026,22 @@ fn record_multi(sink: &mut Sink, ctx: &mut Ctx, fe: FeIn, a: Option<AFilter>, al
     match &loaded {
         Err(e) => set_fail(fail("no_panic", e.clone()), &mut verdict),
         Ok(_) => {}
+    }
+    // `matches` is total: whatever the message's payload makes a regex engine do, no call panics
+    if let Ok(Some(ls)) = &loaded {
+        for (k, l) in ls.iter().enumerate() {
+            let all = [("loaded", Some(&l.dec)), ("reloaded", l.reloaded.as_ref().map(|(_, d)| d)), ("twice reloaded", l.again.as_ref().and_then(|d| d.as_ref()))];
+            for (which, d) in all {
+                if let Some((i, e)) = d.and_then(|d| d.panics.first()) {
+                    let (m, t) = if *i < 1000 { (&msgs[*i], &texts[*i]) } else { (sweep.as_ref().unwrap(), sweep_text.as_ref().unwrap()) };
+                    let t = t.as_ref().map(|t| if t.len() > 60 { format!("{}.. ({} bytes)", &t[..t.char_indices().map(|(i, _)| i).take_while(|i| *i <= 40).last().unwrap_or(0)], t.len()) } else { t.clone() });
+                    set_fail(
+                        fail("matches_total", format!("front-end {}: {} filter {} ({}): matches PANICKED on message {} {:?} text {:?}: {}", fe_name, which, k, l.json, i, m.ecu, t, e)),
+                        &mut verdict,
+                    );
+                }
+            }
+        }
     }
     let n_filters = match &loaded {
         Ok(Some(ls)) => ls.len(),
@@ -1145,6 +1219,13 @@ fn record_multi(sink: &mut Sink, ctx: &mut Ctx, fe: FeIn, a: Option<AFilter>, al
     if sweep.is_some() {
         tags.push("type_sweep".into());
     }
+    if engine_errors > 0 {
+        // the real engine failed at match time on a (pattern, text) pair of this case
+        tags.push(format!("engine_error_{}", fe_name));
+        if a.as_ref().map(|a| a.negate).unwrap_or(false) {
+            tags.push("engine_error_negated".into());
+        }
+    }
     let any_true = match (&loaded, &eac_sel) {
         (Ok(Some(ls)), _) => ls.iter().any(|l| l.dec.msgs.iter().any(|b| *b)),
         (_, Some(Some(s))) => s.iter().any(|b| *b),
@@ -1190,11 +1271,13 @@ const MSG_IDS: &[&[u8; 4]] = &[
 const LIT_PAYLOADS: &[&str] = &["foo", "Foo", "FOO bar", "o", "", "stra\u{df}e", "a.b", "k", "(?i)", "bar", "12", "F", "error ", " error", " ", "  ", "a\tb", "\tx", "line\n", " \n", "a & b", "a &amp; b", "x < y", "<tag>", "\"q\" 'r'", "]]>", "<![CDATA[x]]>", " two  blanks ", "(?i)foo", "(?i:x)", "(?s)"];
 const RE_PAYLOADS: &[&str] = &["^foo", "fo+", "foo.*bar", "(?<n>\\d+)", "(?!x)foo", "\\d{2,}", "Foo", "^$", "(?i)x", "bar$", "a.b", "[fF]oo (?=b)", "^state ", "error $", " end$", "^ ", "\\t", " +x", "a &amp; b", "<b>|\"q\"", "^\\s+$", "a  b",
     // patterns that carry their own inline flag groups (whatever ignoreCasePayload says)
+    "(a|b|ab)*(?=c)", "(?<=x )(\\d+,?)*;", "(e|r|er|o|ro)*(?=!)",
     "(?i)error", "(?i:foo) bar", "^(?i)state", "(?i)^foo", "(?s)a.b", "(?is)^a.b$", "(?i)(?i)x", "foo(?i) bar", "(?-i)Foo", "(?m)^bar$", "(?i)", "((?i)fo)o",
 ];
 const TEXTS: &[&str] = &[
     "foo", "Foo", "FOO BAR", "a foo bar", "xfoo 12", "", "stra\u{df}e", "STRASSE", "a.b", "aXb", "\u{212a}elvin", "kelvin", "(?i)x", "foo bar", "FOO", "x 7 y",
     "error", "errors: none", "error code", "state 1", "statement", " ", "a\tb", "a b", "a & b", "a &amp; b", "x < y", "<tag>", "the end", "\"q\" 'r'", "]]>",
+    "ababababc", "x 12,13,14,;", "errorerror!",
 ];
 
 /// pattern bodies for the inline-flag family (payload / ids); mixed case so that every case variant is a different text
@@ -1231,6 +1314,362 @@ fn flag_form_name(form: u64) -> &'static str {
         1 | 8 | 13 => "flag_ci_scoped",
         2 | 7 | 12 | 15 => "flag_ci_inside",
         _ => "flag_other",
+    }
+}
+
+
+// ------------------------------------------------------------------------------------------ engine limits (wave 7)
+/// ambiguous repetitions: (pattern core, the unit the payload repeats, what the pattern wants behind the repetitions).
+/// On `unit` x n WITHOUT the terminator a backtracking engine tries every way of cutting the text before it gives up.
+const AMBIG_CORES: &[(&str, &str, &str)] = &[
+    ("(a|b|ab)*", "ab", "c"),
+    ("(a|ab|b)+", "ab", "c"),
+    ("(a+)+", "a", "c"),
+    ("(x+x+)+", "x", "y"),
+    ("(\\w+\\s?)+", "ab ", "!"),
+    ("(e|r|er|o|ro)*", "error", "!"),
+    ("(\\d+,?)*", "12,", ";"),
+    ("(.*?,)+", "k=v,", ";"),
+];
+const N_ENGINE_FORMS: u64 = 9;
+/// the constructs that make fancy_regex run a pattern on its own backtracking VM (a pattern without any of them is
+/// handed to the linear-time `regex` crate as a whole and cannot fail at match time); form 8 = none (control)
+fn backtracking_form(form: u64, core: &str, term: &str) -> String {
+    match form {
+        0 => format!("{}(?={})", core, term),               // look-ahead
+        1 => format!("(?!zz){}{}", core, term),             // negative look-ahead
+        2 => format!("{}(?<=.){}", core, term),             // look-behind
+        3 => format!("(q?){}\\1{}", core, term),            // backreference
+        4 => format!("(?>z?){}{}", core, term),             // atomic group
+        5 => format!("(?<n>q?){}\\k<n>{}", core, term),     // named backreference
+        6 => format!("z?+{}{}", core, term),                // possessive quantifier
+        7 => format!("^{}{}(?!.)", core, term),             // anchored, negative look-ahead at the end
+        _ => format!("{}{}", core, term),                   // plain: delegated to `regex`
+    }
+}
+fn engine_form_name(form: u64) -> &'static str {
+    ["lookahead", "neg_lookahead", "lookbehind", "backref", "atomic", "named_backref", "possessive", "anchored_neg_lookahead", "plain"][form.min(8) as usize]
+}
+fn engine_probe() {
+    let mut eng = Engines::default();
+    for (core, unit, term) in AMBIG_CORES {
+        for form in 0..N_ENGINE_FORMS {
+            for ic in [false, true] {
+                let pat = format!("{}{}", if ic { "(?i)" } else { "" }, backtracking_form(form, core, term));
+                if eng.fancy(&pat).is_none() {
+                    println!("{:40} does not compile", pat);
+                    continue;
+                }
+                let mut line = format!("{:40}", pat);
+                for n in [6usize, 10, 14, 18, 22, 30, 40, 60] {
+                    for with_term in [false, true] {
+                        let t = format!("{}{}", unit.repeat(n), if with_term { term } else { "" });
+                        let t0 = std::time::Instant::now();
+                        let a = eng.fancy_answer(&pat, &t);
+                        line.push_str(&format!(" {}{}:{}({}ms)", n, if with_term { "+" } else { "" }, a, t0.elapsed().as_millis()));
+                    }
+                }
+                println!("{}", line);
+            }
+        }
+    }
+}
+
+/// the engine-limit family: payload patterns that run on fancy_regex's backtracking VM x payloads that drive it over
+/// its limit (the ambiguous unit repeated 18..60 times without the terminating character), stay below it (6..14
+/// repetitions), match at once (with the terminator) and ordinary payloads; alone and together with other criteria,
+/// negated or not, through every front-end that accepts a payload pattern
+fn engine_family(sink: &mut Sink, ctx: &mut Ctx, rng: &mut Rng, group: &mut u64, rounds: u64) {
+    for round in 0..rounds {
+        for form in 0..N_ENGINE_FORMS {
+            let (core, unit, term) = AMBIG_CORES[((form + round * 5 + rng.below(2)) % AMBIG_CORES.len() as u64) as usize];
+            let pat = backtracking_form(form, core, term);
+            let ic = (form + round) % 3 == 0;
+            if ctx.eng.fancy(&pat).is_none() || ctx.eng.fancy(&format!("(?i){}", pat)).is_none() {
+                continue;
+            }
+            let with_others = (round + form) % 3 == 1;
+            let mut af = gen_afilter(rng, if with_others { 2 } else { 0 }, 5);
+            af.kind = if rng.chance(1, 6) { 1 } else { 0 };
+            af.enabled = true;
+            af.negate = (form + round) % 2 == 1;
+            af.payload = Some(APayload { s: pat.clone(), regex: true, ic });
+            let (mut msgs, base) = universe(rng, &mut ctx.eng, &af, 1);
+            let n_over = *rng.pick(&[18usize, 22, 26, 30, 40, 50, 60]);
+            let n_under = *rng.pick(&[6usize, 8, 10, 12, 14]);
+            let up = |t: String, on: bool| if on { t.to_uppercase() } else { t };
+            let upper = ic && rng.chance(1, 2);
+            let mut evil: Vec<String> = vec![
+                up(unit.repeat(n_over), upper),                         // over the limit
+                unit.repeat(n_under),                                   // ambiguous, but below the limit
+                format!("{}{}", unit.repeat(n_over), term),             // the same text with the terminator: matches at once
+                format!("{}{}", unit.repeat(n_under), term),
+            ];
+            if rng.chance(1, 3) {
+                evil.push(format!("state {}{} end", unit.repeat(n_over), term));
+            }
+            if rng.chance(1, 4) {
+                evil.push(format!("x{}", unit.repeat(n_over + 1))); // a second text over the limit
+            }
+            for t in evil {
+                let mut m = base.clone();
+                m.text = Some(t);
+                msgs.push(m);
+            }
+            // an earlier criterion fails: `matches` returns before the engine is asked
+            let mut m = base.clone();
+            m.text = Some(unit.repeat(n_over));
+            if af.ecu.is_some() || af.apid.is_some() || af.ctid.is_some() || af.ty.is_some() || af.lmin.is_some() || af.lmax.is_some() {
+                m.ext = None;
+                m.ecu = *b"ZZZZ";
+                msgs.push(m);
+            }
+            let sweep = if af.ty.is_some() || af.lmin.is_some() || af.lmax.is_some() { Some(base) } else { None };
+            *group += 1;
+            let tags = ["regex_engine", engine_form_name(form), if af.negate { "engine_negated" } else { "engine_plain" }];
+            // one front-end per filter in rotation, every third filter through a second one (front-ends agree)
+            let dlf = a_to_dlf(rng, &af);
+            let direct = direct_filter(&af).is_some();
+            let pick = (round + form) % 3;
+            let mut done = 0;
+            if pick == 1 || pick == 2 && !direct || pick == 0 && dlf.is_none() {
+                let ic_member = if ic { Some(true) } else if rng.chance(1, 2) { Some(false) } else { None };
+                let kv = a_to_json_ic(rng, &af, ic_member);
+                record(sink, ctx, FeIn::Json(kv), Some(af.clone()), msgs.clone(), sweep.clone(), Some(*group), &tags);
+                done += 1;
+            }
+            if let (Some(d), true) = (dlf, pick == 0 || (round + form) % 6 == 1) {
+                record(sink, ctx, FeIn::Dlf(vec![d], rng.chance(1, 2)), Some(af.clone()), msgs.clone(), sweep.clone(), Some(*group), &tags);
+                done += 1;
+            }
+            if direct && (pick == 2 || done == 0) {
+                record(sink, ctx, FeIn::Direct(af.clone()), Some(af.clone()), msgs.clone(), sweep.clone(), Some(*group), &tags);
+            }
+        }
+    }
+}
+
+// ------------------------------------------------------------------------------------------ ids made of regex characters (wave 7)
+const META_CHARS: &str = ".-,=!<>^$*+?()[]{}|\\";
+/// id texts that contain characters of `contains_regex_chars`: every character in front / inside / behind letters,
+/// and texts whose reading as a regular expression differs from the literal one (or is no regular expression at all)
+fn meta_ids() -> Vec<String> {
+    let mut v: Vec<String> = vec![];
+    for c in META_CHARS.chars() {
+        v.push(format!("E{}U1", c));
+        v.push(format!("A{}B", c));
+        v.push(format!("{}AB", c));
+        v.push(format!("AB{}", c));
+        v.push(format!("E{}", c));
+    }
+    for s in [
+        "E.U1", "EC.1", "E..1", "....", ".*", ".", "A|B", "EC|AP", "^AB", "AB$", "^EC", "A+", "AB*", "AB?", "(AB)", "[AB]", "[AB", "AB]", "A{2}", "A{2", "EC(1", "A[1", "X*+",
+        "A\\d", "A\\", "\\x41", "a=b", "a!b", "<A>", "A,B", "A-B", "EC-1", "----", "E-1", "(", ")", "?", "*A", "+A", "A{,", "A|", "|", "^$", "^", "$", "C+", "[A-C]U", "E.U", "(?i)e", "A.B.C",
+    ] {
+        v.push(s.to_string());
+    }
+    let mut seen = BTreeSet::new();
+    v.into_iter().filter(|x| seen.insert(x.clone())).collect()
+}
+/// ids on which the two readings of an id text differ or agree: (ids the text matches when read as a regular expression
+/// over the 4 id bytes although they are not the literal id, ids that satisfy neither reading); the literal id itself
+/// is the satisfying message of the literal reading
+fn reading_probes(eng: &mut Engines, s: &str) -> (Vec<[u8; 4]>, Vec<[u8; 4]>) {
+    let lit = pad4(s.as_bytes());
+    let is_meta = |c: char| contains_regex_chars(&c.to_string());
+    let chars: Vec<char> = s.chars().collect();
+    let mut cands: Vec<String> = vec![];
+    for (i, c) in chars.iter().enumerate() {
+        if !is_meta(*c) {
+            continue;
+        }
+        let head: String = chars[..i].iter().collect();
+        let tail: String = chars[i + 1..].iter().collect();
+        for r in ["C", "X", "1", ""] {
+            cands.push(format!("{}{}{}", head, r, tail));
+        }
+        if i > 0 {
+            // the character in front of a quantifier dropped / repeated
+            let head1: String = chars[..i - 1].iter().collect();
+            cands.push(format!("{}{}", head1, tail));
+            cands.push(format!("{}{}{}", head, chars[i - 1], tail));
+        }
+    }
+    let stripped: String = chars.iter().filter(|c| !is_meta(**c)).collect();
+    cands.push(stripped.clone());
+    cands.push(format!("X{}", stripped));
+    cands.push(format!("{}X", stripped));
+    cands.push(format!("X{}", s));
+    cands.push(format!("{}X", s));
+    for part in s.split('|') {
+        cands.push(part.chars().filter(|c| !is_meta(*c)).collect());
+    }
+    let mut ids: Vec<[u8; 4]> = vec![];
+    for c in cands.iter().filter(|c| c.is_ascii()) {
+        let id = pad4(c.as_bytes());
+        if id != lit && !ids.contains(&id) {
+            ids.push(id);
+        }
+    }
+    for id in MSG_IDS {
+        if **id != lit && !ids.contains(*id) {
+            ids.push(**id);
+        }
+    }
+    let compiles = eng.bytes(s).is_some();
+    let (re_only, neither): (Vec<[u8; 4]>, Vec<[u8; 4]>) = ids.into_iter().partition(|id| compiles && eng.bytes_match(s, id));
+    (re_only, neither)
+}
+/// the optional "is a regular expression" member of an id criterion forced: Some(b) = written with value b, None = left out
+fn force_json_id_option(rng: &mut Rng, kv: &mut Vec<(String, Value)>, key: &str, opt: Option<bool>) {
+    let member = format!("{}IsRegex", key);
+    kv.retain(|(k, _)| k != &member);
+    if let Some(b) = opt {
+        let at = rng.below(kv.len() as u64 + 1) as usize;
+        kv.insert(at, (member, json!(b)));
+    }
+}
+fn force_dlf_id_option(rng: &mut Rng, kv: &mut Vec<(String, String)>, key: &str, opt: Option<bool>) {
+    // dlt-viewer has no such element for the ECU id
+    let member = match key {
+        "apid" => "enableregexp_Appid",
+        "ctid" => "enableregexp_Context",
+        _ => return,
+    };
+    kv.retain(|(k, _)| k != member);
+    if let Some(b) = opt {
+        let at = rng.below(kv.len() as u64 + 1) as usize;
+        kv.insert(at, (member.into(), if b { "1" } else { "0" }.into()));
+    }
+}
+/// ids containing characters of `contains_regex_chars` in ECU / APID / CTID position, the regex option on / off /
+/// absent, through every front-end; per id text the literal and the regex reading are two abstract filters and every
+/// front-end input is checked against the reading the front-end's rules give it (DLF ecuid: always literal)
+#[allow(clippy::too_many_arguments)]
+fn meta_id_family(sink: &mut Sink, ctx: &mut Ctx, rng: &mut Rng, group: &mut u64, seed: u64, stride: u64, have_cli: bool, eac_budget: &mut u64) {
+    let ids = meta_ids();
+    for (k, s) in ids.iter().enumerate() {
+        let k = k as u64;
+        if (k + seed) % stride != 0 && stride > 1 && (k * 7 + seed) % stride != 1 {
+            continue;
+        }
+        // 0 ecu (half of the texts: the position for which dlt-viewer files have no regex option), 1 apid, 2 ctid
+        let pos = if (k + k / 5 + seed) % 2 == 0 { 0 } else { 1 + ((k / 2 + seed) % 2) as usize };
+        let key = ["ecu", "apid", "ctid"][pos];
+        let opt: Option<bool> = match (k / 3 + k + seed / 3) % 3 {
+            0 => None,
+            1 => Some(false),
+            _ => Some(true),
+        };
+        let compiles = ctx.eng.bytes(s).is_some();
+        let with_others = k % 4 == 3;
+        let mut base_a = gen_afilter(rng, 0, 1);
+        base_a.kind = 0;
+        base_a.enabled = true;
+        base_a.negate = false;
+        if with_others {
+            let lit = |rng: &mut Rng| AId { s: rng.pick(&["APID", "AP", "CTID", "CT", "ECU1", "XY"]).to_string(), regex: false };
+            if pos != 1 {
+                base_a.apid = Some(lit(rng));
+            }
+            if pos != 2 && rng.chance(1, 2) {
+                base_a.ctid = Some(lit(rng));
+            }
+        }
+        let mk = |regex: bool| {
+            let mut a = base_a.clone();
+            let c = Some(AId { s: s.clone(), regex });
+            match pos {
+                0 => a.ecu = c,
+                1 => a.apid = c,
+                _ => a.ctid = c,
+            }
+            a
+        };
+        let a_lit = mk(false);
+        let a_re = mk(true);
+        // one universe for both readings: the literal id, ids only the regex reading accepts, ids neither accepts
+        let (mut msgs, base) = universe(rng, &mut ctx.eng, &a_lit, 1);
+        if compiles {
+            msgs.push(satisfying_msg(rng, &mut ctx.eng, &a_re));
+        }
+        let _ = base;
+        *group += 1;
+        let g_lit = *group;
+        *group += 1;
+        let g_re = *group;
+        let tag_pos = format!("meta_id_{}", key);
+        let tag_opt = match opt {
+            None => "id_option_absent",
+            Some(false) => "id_option_off",
+            Some(true) => "id_option_on",
+        };
+        // the reading a front-end's rules give the text: (abstract filter, group); None = the regex reading of a text
+        // that is no regular expression (JSON / --eac: error, DLF: the criterion is dropped) - correspondence only
+        let reading = |regex: bool| -> (Option<AFilter>, Option<u64>, &'static str) {
+            if !regex {
+                (Some(a_lit.clone()), Some(g_lit), "reading_literal")
+            } else if compiles {
+                (Some(a_re.clone()), Some(g_re), "reading_regex")
+            } else {
+                (None, None, "reading_invalid_regex")
+            }
+        };
+        // JSON: the option decides, absent = auto-detection
+        {
+            let (a, g, rtag) = reading(opt.unwrap_or(true));
+            let mut kv = a_to_json(rng, if opt == Some(false) { &a_lit } else { &a_re });
+            force_json_id_option(rng, &mut kv, key, opt);
+            record(sink, ctx, FeIn::Json(kv), a, msgs.clone(), None, g, &["meta_id", tag_pos.as_str(), tag_opt, rtag]);
+        }
+        // DLF: no option for the ECU id (always the literal id); apid / ctid as JSON
+        if xml_safe(s) {
+            let regex = if pos == 0 { false } else { opt.unwrap_or(true) };
+            let (a, g, rtag) = reading(regex);
+            // render from the literal filter (a_to_dlf refuses a regex ECU) and force the option
+            if let Some(mut d) = a_to_dlf(rng, &a_lit) {
+                force_dlf_id_option(rng, &mut d, key, opt);
+                record(sink, ctx, FeIn::Dlf(vec![d], rng.chance(1, 2)), a, msgs.clone(), None, g, &["meta_id", tag_pos.as_str(), if pos == 0 { "id_option_none_exists" } else { tag_opt }, rtag]);
+            }
+        }
+        // a third front-end in rotation: direct assignment (the flag decides), dlt-convert list (always literal),
+        // ECU:APID:CTID expression (auto-detection)
+        match k % 3 {
+            0 => {
+                let regex = opt.unwrap_or(k % 2 == 0);
+                if let (Some(a), g, rtag) = reading(regex) {
+                    if direct_filter(&a).is_some() {
+                        record(sink, ctx, FeIn::Direct(a.clone()), Some(a), msgs.clone(), None, g, &["meta_id", tag_pos.as_str(), rtag]);
+                    }
+                }
+            }
+            1 => {
+                let mut a = a_lit.clone();
+                a.ecu = None;
+                if a.apid.is_none() {
+                    a.apid = Some(AId { s: "APID".into(), regex: false });
+                }
+                if a.ctid.is_none() {
+                    a.ctid = Some(AId { s: "CTID".into(), regex: false });
+                }
+                if pos != 0 {
+                    if let Some(b) = a_to_conv(rng, &a) {
+                        // its own universe (the filter differs from a_lit by the added id)
+                        let (m2, _) = universe(rng, &mut ctx.eng, &a, 1);
+                        record(sink, ctx, FeIn::Conv(b), Some(a), m2, None, None, &["meta_id", tag_pos.as_str(), "reading_literal"]);
+                    }
+                }
+            }
+            _ => {
+                if have_cli && *eac_budget > 0 && compiles {
+                    if let Some(e) = a_to_eac(&a_re) {
+                        *eac_budget -= 1;
+                        let cli_msgs: Vec<Msg> = msgs.iter().filter(|m| m.raw.is_none()).cloned().collect();
+                        record(sink, ctx, FeIn::Eac(e), Some(a_re.clone()), cli_msgs, None, None, &["meta_id", tag_pos.as_str(), "reading_regex"]);
+                    }
+                }
+            }
+        }
     }
 }
 
@@ -1670,6 +2109,30 @@ fn universe(rng: &mut Rng, eng: &mut Engines, a: &AFilter, n_random: u64) -> (Ve
                 ids.remove(k);
             }
             ids.extend(cases);
+            // a text with characters of `contains_regex_chars` has two readings (literal id / regular expression):
+            // ids only the regex reading accepts, the literal id itself, an id neither accepts - a front-end that
+            // takes the wrong reading (or loses a criterion that is no valid expression) decides differently
+            if contains_regex_chars(&c.s) {
+                let (re_only, neither) = reading_probes(eng, &c.s);
+                let mut extra: Vec<[u8; 4]> = vec![];
+                if let Some(f) = re_only.first() {
+                    extra.push(*f);
+                }
+                if re_only.len() > 1 {
+                    extra.push(re_only[1 + rng.below(re_only.len() as u64 - 1) as usize]);
+                }
+                if !neither.is_empty() {
+                    extra.push(neither[rng.below(neither.len().min(8) as u64) as usize]);
+                }
+                if c.regex && c.s.is_ascii() {
+                    extra.push(pad4(c.s.as_bytes()));
+                }
+                for e in extra {
+                    if !ids.contains(&e) {
+                        ids.push(e);
+                    }
+                }
+            }
             for id in ids {
                 let mut m = base.clone();
                 match which {
@@ -2062,6 +2525,71 @@ fn corpus(sink: &mut Sink, ctx: &mut Ctx) {
         Some(1_000_010),
         &["corpus"],
     );
+    // wave 7: the engine of the payload pattern fails at match time (backtrack limit) on the second and the last
+    // message; `matches` answers "criterion does not hold" (a negated filter matches them), no call panics
+    let evil = "ab".repeat(40);
+    for negate in [false, true] {
+        let a = AFilter {
+            kind: 0,
+            enabled: true,
+            negate,
+            ecu: None,
+            apid: None,
+            ctid: None,
+            ty: None,
+            lmin: None,
+            lmax: None,
+            payload: Some(APayload { s: "(a|b|ab)*(?=c)".into(), regex: true, ic: true }),
+            lcs: None,
+        };
+        let msgs = vec![
+            m(b"ECU1", Some((0x41, b"APID", b"CTID")), "abababc", 1),
+            m(b"ECU1", Some((0x41, b"APID", b"CTID")), &evil, 1),
+            m(b"ECU1", Some((0x41, b"APID", b"CTID")), "ab ab", 1),
+            m(b"ECU1", Some((0x41, b"APID", b"CTID")), &format!("{}C", evil.to_uppercase()), 1),
+            m(b"ECU2", None, &evil, 0),
+        ];
+        let mut jkv = vec![("type".to_string(), json!(0)), ("payloadRegex".to_string(), json!("(a|b|ab)*(?=c)")), ("ignoreCasePayload".to_string(), json!(true))];
+        if negate {
+            jkv.push(("not".into(), json!(true)));
+        }
+        record(sink, ctx, FeIn::Json(jkv), Some(a.clone()), msgs.clone(), None, Some(1_000_020 + negate as u64), &["corpus", "C03-7", "regex_engine"]);
+        if !negate {
+            let kv: Vec<(String, String)> = vec![
+                ("enablefilter".into(), "1".into()),
+                ("enablepayloadtext".into(), "1".into()),
+                ("payloadtext".into(), "(a|b|ab)*(?=c)".into()),
+                ("enableregexp_Payload".into(), "1".into()),
+                ("ignoreCase_Payload".into(), "1".into()),
+            ];
+            record(sink, ctx, FeIn::Dlf(vec![kv], true), Some(a.clone()), msgs.clone(), None, Some(1_000_020), &["corpus", "C03-7", "regex_engine"]);
+            record(sink, ctx, FeIn::Direct(a.clone()), Some(a), msgs, None, Some(1_000_020), &["corpus", "C03-7", "regex_engine"]);
+        }
+    }
+    // wave 7 (seeded C11-7): a DLF ECU id is the literal id whatever characters it is made of
+    for id in ["E.U1", "A-B", "EC(1"] {
+        let a = AFilter { kind: 0, enabled: true, negate: false, ecu: Some(AId { s: id.into(), regex: false }), apid: None, ctid: None, ty: None, lmin: None, lmax: None, payload: None, lcs: None };
+        let msgs = vec![
+            m(&pad4(id.as_bytes()), Some((0x41, b"APID", b"CTID")), "", 0),
+            m(b"ECU1", Some((0x41, b"APID", b"CTID")), "", 0),
+            m(b"EXU1", None, "", 0),
+            m(b"XA-B", Some((0x41, b"APID", b"CTID")), "", 0),
+            m(b"A-BX", None, "", 0),
+            m(b"EC1\0", None, "", 0),
+        ];
+        let kv: Vec<(String, String)> = vec![("enablefilter".into(), "1".into()), ("enableecuid".into(), "1".into()), ("ecuid".into(), id.into())];
+        record(sink, ctx, FeIn::Dlf(vec![kv], false), Some(a.clone()), msgs.clone(), None, Some(1_000_030 + id.len() as u64 * 7 + id.as_bytes()[1] as u64), &["corpus", "C11-7", "meta_id"]);
+        record(
+            sink,
+            ctx,
+            FeIn::Json(vec![("type".into(), json!(0)), ("ecu".into(), json!(id)), ("ecuIsRegex".into(), json!(false))]),
+            Some(a),
+            msgs,
+            None,
+            Some(1_000_030 + id.len() as u64 * 7 + id.as_bytes()[1] as u64),
+            &["corpus", "C11-7", "meta_id"],
+        );
+    }
     // DLF texts of unusual structure (the event loops of the loader)
     for k in 0..16 {
         let msgs = vec![
@@ -2076,6 +2604,10 @@ fn corpus(sink: &mut Sink, ctx: &mut Ctx) {
 }
 
 fn main() {
+    if std::env::var("C11_ENGINE_PROBE").is_ok() {
+        engine_probe();
+        return;
+    }
     let a = parse_args();
     let mut sink = Sink::new("C11", &a.out);
     sink.shard_size = 60;
@@ -2096,7 +2628,19 @@ fn main() {
         ctx.cli_budget = if quick { 60 } else if a.tier == "search" { 0 } else { 600 };
     }
     let mut rng = Rng::new(a.seed);
+    // wall time per generator section (stats.extra.section_ms)
+    let mut sections: Vec<(&str, u128, usize)> = vec![];
+    let mut t_sec = std::time::Instant::now();
+    let mut n_sec = 0usize;
+    macro_rules! section_done {
+        ($name:expr) => {
+            sections.push(($name, t_sec.elapsed().as_millis(), sink.next_id() as usize - n_sec));
+            t_sec = std::time::Instant::now();
+            n_sec = sink.next_id() as usize;
+        };
+    }
     corpus(&mut sink, &mut ctx);
+    section_done!("corpus");
     let mut group: u64 = 0;
 
     // exhaustive: criteria subsets x negation (x enabled), literal and regex variants, through JSON
@@ -2129,6 +2673,7 @@ fn main() {
         }
     }
 
+    section_done!("exhaustive");
     // regular expressions that carry their own inline flag groups ("(?i)..", "(?i:..)..", "^(?i)..", "(?s)..", ...):
     // every way of attaching the group x the ignoreCasePayload option absent / false / true, through every front-end
     // that can express the filter and through to_json -> from_json; the universes hold the criterion's text in
@@ -2219,6 +2764,21 @@ fn main() {
         }
     }
 
+    section_done!("inline_flags");
+    // payload patterns on fancy_regex's backtracking engine x payloads that drive it over its limit (wave 7)
+    let engine_rounds = a.count.map(|c| (c / 40).max(1)).unwrap_or(if quick { 5 } else if a.tier == "search" { 6 } else { 40 });
+    engine_family(&mut sink, &mut ctx, &mut rng, &mut group, engine_rounds);
+    section_done!("regex_engine");
+
+    // ids made of regex characters in ECU / APID / CTID position x regex option on / off / absent x front-ends (wave 7)
+    let mut meta_eac_budget: u64 = if quick { 14 } else { 200 };
+    let meta_rounds = if thorough { 6 } else { 1 };
+    for r in 0..meta_rounds {
+        let stride = if thorough { 1 } else if a.count.is_some() { 6 } else { 3 };
+        meta_id_family(&mut sink, &mut ctx, &mut rng, &mut group, a.seed + r, stride, have_cli, &mut meta_eac_budget);
+    }
+
+    section_done!("meta_id");
     // random abstract filters through every front-end that can express them
     let n = a.count.unwrap_or(if quick { 260 } else if a.tier == "search" { 500 } else { 6000 });
     for i in 0..n {
@@ -2287,6 +2847,7 @@ fn main() {
         }
     }
 
+    section_done!("random");
     // files with several filters (dlt-convert list, DLF)
     let n_multi = a.count.unwrap_or(if quick { 40 } else if a.tier == "search" { 80 } else { 600 });
     for i in 0..n_multi {
@@ -2323,6 +2884,7 @@ fn main() {
         }
     }
 
+    section_done!("multi");
     // raw inputs (valid and malformed) for the correspondence of the loaders
     let n_raw = a.count.unwrap_or(if quick { 240 } else if a.tier == "search" { 300 } else { 4000 });
     for i in 0..n_raw {
@@ -2360,5 +2922,10 @@ fn main() {
         });
         record(&mut sink, &mut ctx, fe, None, msgs, sweep, None, &[]);
     }
+    section_done!("raw");
+    let _ = (t_sec, n_sec);
+    sink.extra_stats.insert("section_ms_cases".into(), json!(sections.iter().map(|(n, ms, c)| json!([n, ms, c])).collect::<Vec<_>>()));
+    sink.extra_stats.insert("fancy_engine_error_evaluations".into(), json!(ctx.eng.fancy_err_evals));
+    sink.extra_stats.insert("fancy_engine_error_ms".into(), json!(ctx.eng.fancy_err_time.as_millis() as u64));
     sink.finish();
 }
